@@ -35,12 +35,12 @@ def cases(tier, fx):
     add('RNGT_DET', sat, unwind=5, timeout=300, defs=['SEED_CONST=0x0123456789abcdefULL'], tag='RNGT_DET_seedK')
     add('RNGT_DET', mul, unwind=5, timeout=450, thorough=True, tag='RNGT_DET_symbolic_seed')
     # translated goto-loops: the inner back-edge counter is not reset between outer iterations -> 4*32(+2) / 4*64(+2)
-    add('F4_JUMP', unwind=34, timeout=600, unwindset=[(r'^k_.*jump', 131)]); add('I4_JUMP', unwind=34, timeout=600, thorough=True, unwindset=[(r'^k_.*jump', 131)])
-    add('F8_JUMP', unwind=66, timeout=900, unwindset=[(r'^k_.*jump', 259)]); add('I8_JUMP', unwind=66, timeout=900, thorough=True, unwindset=[(r'^k_.*jump', 259)])
+    add('F4_JUMP', unwind=34, timeout=600, unwindset=[(r'^k_.*jump', 35)]); add('I4_JUMP', unwind=34, timeout=600, thorough=True, unwindset=[(r'^k_.*jump', 35)])
+    add('F8_JUMP', unwind=66, timeout=900, unwindset=[(r'^k_.*jump', 67)]); add('I8_JUMP', unwind=66, timeout=900, thorough=True, unwindset=[(r'^k_.*jump', 67)])
     return L
 
 def run(tier, seed):
-    wd = os.path.join(VERIF, 'build', 'C20')
+    wd = os.path.join(BUILD, 'C20')
     shutil.rmtree(wd, ignore_errors=True)
     fx = build_fixture(wd, 'c20', open(os.path.join(VERIF, 'kernels', 'c20.cpp')).read())
     return execute('C20', tier, seed, cases(tier, fx), ASSUME)
